@@ -96,6 +96,8 @@ def main():
             ns["state_" + attr] = val
         if c.setup_spec is not None:
             call_spec(c.setup_spec, ns)
+        if getattr(c, "snapshot_spec", None) is not None:
+            call_spec(c.snapshot_spec, ns)
         old = types.SimpleNamespace(**{k: _safe_copy(v) for k, v in ns.items()})
         call_args = [ns[p] for p in c.args if not p.startswith("_")]
         box = {}
